@@ -41,6 +41,26 @@ META = {
         ]),
 }
 
+
+def _w(pid, quick_s, thorough_s, rule, extra_assume=(), level="exploration", **kw):
+    META[pid] = dict(engine="world", level=level, quick_s=quick_s, thorough_s=thorough_s, rule=rule,
+                     assumptions=COMMON_ASSUME + list(extra_assume), **kw)
+
+
+_w("C08", 25, 600,
+   "half of the runs inject a stored roots record realising one weak ordering of {cur.NotBefore, cur.NotAfter, next.NotBefore, next.NotAfter, now} (ties included; also empty and half-missing records) and call RotateRootCertificates once (with/without reinitialize, skip-storage); the other half are histories of 2-12 calls from empty storage separated by clock jumps (1ns..3 spans, biased to land within 2ns of a stored instant); lifetime 1ns..10y, skews 0..lifetime/4; back end inmem/file/store-once, storage wrapper on/off. Non-trivial: every case (the suite has no call at a controlled instant). Distinct by (weak order, missing-kind, reinit, back end, wrapper) for injections and by (config, seed) for histories.",
+   ["the clock does not move within one library call (asserted), so minted windows are checked exactly",
+    "exact ties between now and a stored instant accept the behaviour of either adjacent open interval (every resolution of the tied comparisons is evaluated)",
+    "lifetime+notAfterSkew < 2ns is excluded from generation (half of the remaining life is 0 in integer nanoseconds)",
+    "reinitialize on storage that holds no roots record may fail on back ends whose Remove reports absent entries (file): not judged"])
+_w("C03", 25, 600,
+   "each case = (request origin: library-created under the sim clock or harness-built with an arbitrary window) x (wire corruption: none, one bit of bundle or signature, multi-byte overwrite, truncation, swapped signature) x (missing/unsupported fields) x (placement of now: inside, within 1ns of either skewed or unskewed edge, far before/after) x (not-before/not-after skews from +-{0,1ns,1s,1m,1h}) x (AuthorizeNode or FetchNodeCredentials) on a recording storage. Non-trivial: every corrupted, boundary or skewed case; distinct by (target, corruption, field case, placement, skews, origin).",
+   ["a request is 'processed' iff the call made at least one storage operation; a refused request must make none",
+    "on an exact boundary either behaviour is accepted; 'documented fetch lifetime' is 24h (const.go DefaultFetchCredentialsLifetime doc comment)"])
+_w("C05", 25, 600,
+   "each case = (1-4 records under one node ID in a tape-chosen lookup order, records under another node ID, a record without node ID, an unregistered key) x (claimed key) x (nonce signer: claimed key, another registered key, unregistered key, none, forged) x (client state absent/present, signer drawn independently) x (node-ID hint absent/matching/foreign/unknown) x (storage is/is not a NodeIdLoader) x (local skip-verification). Non-trivial: all; distinct by (lookup path, signer classes, scope size, first index of the lookup order).",
+   ["LoadByNodeId is implemented by simstore over the real back end so that result order and multiplicity are tape choices"])
+
 HOOK_COMMITS = ["54f90f1 (H2: net/splitlistener.go scheduling points + net/verif_hook_{on,off}.go)",
                 "c914c74 (H1: protocol/dialer.go SimDial seam + protocol/verif_hook_{on,off}.go)"]
 
@@ -50,6 +70,9 @@ NOT_APPLICABLE["C20"] = ("pure function of its arguments (BreakIntoNextProtos/Co
                          "its failure modes are reached by the simulated workloads of C14 (malformed entries in a hostile ClientHello) and C07/C16 (honest payloads needing >99 chunks)")
 
 LEVEL_TEXT = {
+    "C08": "seeded exploration of stored-state orderings and rotation histories on the fake clock against an executable decision table written from the statement, with exact post-conditions (windows, overlap, durability, no-op identity).",
+    "C03": "seeded exploration of wire corruptions x clock placements x skew configurations against the acceptance predicate of the statement; refusals are required to be storage-silent.",
+    "C05": "seeded exploration of lookup-result orderings and signer choices against a reference predicate (exists record in scope verifying nonce and state).",
     "C18": "seeded exploration of interleavings of ingress/accept/close/cancel on the real MultiplexingListener under a lock-aware deterministic scheduler; invariants (exactly-once delivery xor close, no panic, Close returns, accept-after-close) checked after every step and at quiescence. Sampling: small bags usually saturate their schedule space, exhaustiveness is not claimed.",
 }
 TECHNIQUE = {
